@@ -13,7 +13,8 @@ EXPLANATION = ("Level-triggered cancellation: every link of the re-delivery chai
                "scope cancelled before entry delivers on entry, the delivery loop schedules a retry for every live member it could not finish "
                "with, recurses into eligible child scopes and re-arms itself with the same origin, delivery is restarted on scope exit, on "
                "un-shielding and whenever a task joins a scope, checkpoint_if_cancelled spins until the cancellation lands, scope membership "
-               "is written only at the enumerated sites.")
+               "is written only at the enumerated sites."
+               " A deadline is a cancellation source: the timer rules and the helpers' deadline forwarding of C06 hold (0, past and -inf deadlines are deadlines).")
 NOT_DECIDED = ("The bound on event-loop cycles, fairness of call_soon, tasks that swallow CancelledError, uvloop/eager configurations: "
                "liveness is not decided, only the presence of each necessary link.")
 
